@@ -5,7 +5,7 @@
  *                                                 path happens: action 1 = fail with errno err,
  *                                                 action 2 = short write of arg bytes (then succeed)
  *   faultfs_count(op)                             number of calls of `op` seen on sandbox paths
- * ops: 1 write  2 rename  3 sendfile  4 copy_file_range  5 open-for-writing  6 unlink  7 fsync
+ * ops: 1 write  2 rename  3 sendfile  4 copy_file_range  5 open-for-writing  6 unlink  7 fsync  8 close
  */
 #define _GNU_SOURCE
 #include <dlfcn.h>
@@ -18,7 +18,7 @@
 #include <sys/types.h>
 #include <unistd.h>
 
-#define NOPS 8
+#define NOPS 9
 #define MAXRULES 16
 
 static char prefix[PATH_MAX] = "";
@@ -218,6 +218,16 @@ int fsync(int fd) {
     if (in_sandbox_fd(fd)) {
         int r = hit(7);
         if (r >= 0 && rules[r].action == 1) { errno = rules[r].err; return -1; }
+    }
+    return real(fd);
+}
+
+int close(int fd) {
+    static int (*real)(int);
+    if (!real) real = dlsym(RTLD_NEXT, "close");
+    if (fd > 2 && in_sandbox_fd(fd)) {
+        int r = hit(8);
+        if (r >= 0 && rules[r].action == 1) { int e = rules[r].err; real(fd); errno = e; return -1; }
     }
     return real(fd);
 }
